@@ -109,7 +109,7 @@ func runTool(dir string, timeout time.Duration, name string, args ...string) (st
 
 func init() {
 	Register(&Check{ID: "C20", Level: "exploration",
-		Rule: "one case = one generated workflow whose files live in the working directory, run on the simulator under one tape-chosen schedule with a clock granularity of 1 ns / 1 ms / 15 ms (commands last at least one granule, so dependent tasks keep distinct start times while concurrently started ones share them), optionally as a resumed history (RunTo prefix, then Run: ancestor records loaded from disk); the resulting tree is exported to a scratch directory and the REAL scipipe CLI built from /repo converts the audit file of a tape-chosen output with audit2html, audit2tex and audit2bash. Oracle: each report lists every record ID of the lineage (read independently from the JSON) exactly once, in non-decreasing StartTime order, tasks with their command, parameters and tags; the generated script, run by the real bash in a directory holding only the source files (with a native twin of the workload command), re-creates the file byte-identically. distinct = event-log hash; non-trivial = lineage of >=3 records and >=1 non-default choice",
+		Rule: "one case = one generated workflow whose files live in the working directory, run on the simulator under one tape-chosen schedule with a clock granularity of 1 ns / 1 ms / 15 ms (commands last at least one granule, so dependent tasks keep distinct start times while concurrently started ones share them), optionally as a resumed history (RunTo prefix, then Run: ancestor records loaded from disk); the resulting tree is exported to a scratch directory and the REAL scipipe CLI built from /repo converts the audit file of a tape-chosen output with audit2html, audit2tex and audit2bash; one case in six instead converts a directly generated audit tree (1..12 records, fan-in <= 3, ancestors shared through several paths, source records with zero times, start times increasing / all equal / all zero / tied / decreasing towards the root; listings only). Oracle: each report lists every record ID of the lineage (read independently from the JSON) exactly once, in non-decreasing StartTime order, tasks with their command, parameters and tags; the generated script, run by the real bash in a directory holding only the source files (with a native twin of the workload command), re-creates the file byte-identically. distinct = event-log hash; non-trivial = lineage of >=3 records and >=1 non-default choice",
 		Run: func(c *Case) Verdict {
 			cli, opBin := os.Getenv("VERIF_CLI"), os.Getenv("VERIF_OP")
 			if exe, err := os.Executable(); err == nil {
@@ -125,6 +125,9 @@ func init() {
 			}
 			if _, err := os.Stat(opBin); err != nil {
 				return Inconclusive("native op binary not found")
+			}
+			if c.Tape.Choose(simrt.StGen, 6, 0) == 1 {
+				return directAuditCase(c, cli)
 			}
 			w := Generate(c.Tape, tierProfile(profC20, c.Tier))
 			for i := range w.Nodes {
@@ -237,109 +240,9 @@ func init() {
 			if err := exportTree(final, dir, nil); err != nil {
 				return Inconclusive("export: %v", err)
 			}
-			checkListing := func(kind string, ids []string, text string) Verdict {
-				seen := map[string]int{}
-				for _, id := range ids {
-					seen[id]++
-				}
-				sig := ""
-				if len(eq) < len(recs) {
-					sig = "equal-start-times"
-				}
-				for _, id := range sortedKeys(recs) {
-					r := recs[id]
-					if seen[id] == 0 {
-						return Viol("report-listing", sig, "audit2%s of %s: record %s (process %q, start %s) of the lineage is not listed; listed ids: %v", kind, target, id, r.Proc, r.Start.Format(time.RFC3339Nano), ids)
-					}
-					if seen[id] > 1 {
-						return Viol("report-listing", sig, "audit2%s of %s: record %s (process %q) is listed %d times", kind, target, id, r.Proc, seen[id])
-					}
-				}
-				for _, id := range ids {
-					if recs[id] == nil {
-						return Viol("report-unknown-record", "", "audit2%s of %s lists an id %s that is not in the lineage", kind, target, id)
-					}
-				}
-				for i := 1; i < len(ids); i++ {
-					if recs[ids[i]].Start.Before(recs[ids[i-1]].Start) {
-						return Viol("report-order", "", "audit2%s of %s: %s (start %s) listed after %s (start %s)", kind, target, ids[i], recs[ids[i]].Start, ids[i-1], recs[ids[i-1]].Start)
-					}
-				}
-				for _, id := range sortedKeys(recs) {
-					r := recs[id]
-					cmd := r.Command
-					if kind == "tex" {
-						cmd = strings.ReplaceAll(cmd, "_", "\\_")
-					}
-					if r.Command != "" && !strings.Contains(text, cmd) {
-						return Viol("report-command", "", "audit2%s of %s: command %q of record %s not rendered", kind, target, r.Command, id)
-					}
-					for pk, pv := range r.Params {
-						p1, p2 := pk+": "+pv, pk+"="+pv
-						if !strings.Contains(text, p1) && !strings.Contains(text, p2) {
-							return Viol("report-params", "", "audit2%s of %s: parameter %s=%s of record %s not rendered", kind, target, pk, pv, id)
-						}
-					}
-					for tk, tv := range r.Tags {
-						p1, p2 := tk+": "+tv, tk+"="+tv
-						if !strings.Contains(text, p1) && !strings.Contains(text, p2) {
-							return Viol("report-tags", "", "audit2%s of %s: tag %s=%s of record %s not rendered", kind, target, tk, tv, id)
-						}
-					}
-				}
-				return OK()
-			}
-			// HTML
-			if out, err := runTool(dir, 60*time.Second, cli, "audit2html", target+".audit.json", "report.html"); err != nil {
-				if err.Error() == "timeout" {
-					return Inconclusive("native converter timed out (machine overloaded)")
-				}
-				return Viol("converter-failed", "", "scipipe audit2html %s.audit.json failed: %v: %s", target, err, clip([]byte(out)))
-			}
-			hb, _ := os.ReadFile(filepath.Join(dir, "report.html"))
-			var ids []string
-			for _, m := range reHTMLTask.FindAllStringSubmatch(string(hb), -1) {
-				ids = append(ids, m[2])
-			}
-			if v := checkListing("html", ids, string(hb)); v.Status != "ok" {
+			v, sb := convertAndCheck(cli, dir, target, recs)
+			if v.Status != "ok" {
 				return v
-			}
-			// TeX
-			if out, err := runTool(dir, 60*time.Second, cli, "audit2tex", target+".audit.json", "report.tex"); err != nil {
-				if err.Error() == "timeout" {
-					return Inconclusive("native converter timed out (machine overloaded)")
-				}
-				return Viol("converter-failed", "", "scipipe audit2tex %s.audit.json failed: %v: %s", target, err, clip([]byte(out)))
-			}
-			tb, _ := os.ReadFile(filepath.Join(dir, "report.tex"))
-			ids = nil
-			for _, m := range reTeXID.FindAllStringSubmatch(string(tb), -1) {
-				ids = append(ids, m[1])
-			}
-			if v := checkListing("tex", ids, string(tb)); v.Status != "ok" {
-				return v
-			}
-			// Bash: listing by process name (ids are not rendered), then execute
-			if out, err := runTool(dir, 60*time.Second, cli, "audit2bash", target+".audit.json", "report.sh"); err != nil {
-				if err.Error() == "timeout" {
-					return Inconclusive("native converter timed out (machine overloaded)")
-				}
-				return Viol("converter-failed", "", "scipipe audit2bash %s.audit.json failed: %v: %s", target, err, clip([]byte(out)))
-			}
-			sb, _ := os.ReadFile(filepath.Join(dir, "report.sh"))
-			var gotProcs, wantProcs []string
-			for _, m := range reBashProc.FindAllStringSubmatch(string(sb), -1) {
-				gotProcs = append(gotProcs, m[1])
-			}
-			for _, r := range recs {
-				wantProcs = append(wantProcs, r.Proc)
-			}
-			if m, x := multisetDiff(gotProcs, wantProcs); len(m)+len(x) > 0 {
-				sig := ""
-				if len(eq) < len(recs) {
-					sig = "equal-start-times"
-				}
-				return Viol("report-listing", sig, "audit2bash of %s: script lists processes %v, the lineage has %v", target, gotProcs, wantProcs)
 			}
 			run, err := os.MkdirTemp("", "verif-c20run.")
 			if err != nil {
@@ -381,4 +284,209 @@ func clip3(b []byte) string {
 		return string(b[:4000]) + "..."
 	}
 	return string(b)
+}
+
+// convertAndCheck runs the three converters of the real CLI on
+// <dir>/<target>.audit.json and checks the listings against the records of
+// the lineage (read independently from the JSON). Returns the generated Bash
+// script.
+func convertAndCheck(cli, dir, target string, recs map[string]*flatRec) (Verdict, []byte) {
+	eq := map[int64]int{}
+	for _, r := range recs {
+		eq[r.Start.UnixNano()]++
+	}
+	checkListing := func(kind string, ids []string, text string) Verdict {
+		seen := map[string]int{}
+		for _, id := range ids {
+			seen[id]++
+		}
+		sig := ""
+		if len(eq) < len(recs) {
+			sig = "equal-start-times"
+		}
+		for _, id := range sortedKeys(recs) {
+			r := recs[id]
+			if seen[id] == 0 {
+				return Viol("report-listing", sig, "audit2%s of %s: record %s (process %q, start %s) of the lineage is not listed; listed ids: %v", kind, target, id, r.Proc, r.Start.Format(time.RFC3339Nano), ids)
+			}
+			if seen[id] > 1 {
+				return Viol("report-listing", sig, "audit2%s of %s: record %s (process %q) is listed %d times", kind, target, id, r.Proc, seen[id])
+			}
+		}
+		for _, id := range ids {
+			if recs[id] == nil {
+				return Viol("report-unknown-record", "", "audit2%s of %s lists an id %s that is not in the lineage", kind, target, id)
+			}
+		}
+		for i := 1; i < len(ids); i++ {
+			if recs[ids[i]].Start.Before(recs[ids[i-1]].Start) {
+				return Viol("report-order", "", "audit2%s of %s: %s (start %s) listed after %s (start %s)", kind, target, ids[i], recs[ids[i]].Start, ids[i-1], recs[ids[i-1]].Start)
+			}
+		}
+		for _, id := range sortedKeys(recs) {
+			r := recs[id]
+			cmd := r.Command
+			if kind == "tex" {
+				cmd = strings.ReplaceAll(cmd, "_", "\\_")
+			}
+			if r.Command != "" && !strings.Contains(text, cmd) {
+				return Viol("report-command", "", "audit2%s of %s: command %q of record %s not rendered", kind, target, r.Command, id)
+			}
+			for pk, pv := range r.Params {
+				p1, p2 := pk+": "+pv, pk+"="+pv
+				if !strings.Contains(text, p1) && !strings.Contains(text, p2) {
+					return Viol("report-params", "", "audit2%s of %s: parameter %s=%s of record %s not rendered", kind, target, pk, pv, id)
+				}
+			}
+			for tk, tv := range r.Tags {
+				p1, p2 := tk+": "+tv, tk+"="+tv
+				if !strings.Contains(text, p1) && !strings.Contains(text, p2) {
+					return Viol("report-tags", "", "audit2%s of %s: tag %s=%s of record %s not rendered", kind, target, tk, tv, id)
+				}
+			}
+		}
+		return OK()
+	}
+	// HTML
+	if out, err := runTool(dir, 60*time.Second, cli, "audit2html", target+".audit.json", "report.html"); err != nil {
+		if err.Error() == "timeout" {
+			return Inconclusive("native converter timed out (machine overloaded)"), nil
+		}
+		return Viol("converter-failed", "", "scipipe audit2html %s.audit.json failed: %v: %s", target, err, clip([]byte(out))), nil
+	}
+	hb, _ := os.ReadFile(filepath.Join(dir, "report.html"))
+	var ids []string
+	for _, m := range reHTMLTask.FindAllStringSubmatch(string(hb), -1) {
+		ids = append(ids, m[2])
+	}
+	if v := checkListing("html", ids, string(hb)); v.Status != "ok" {
+		return v, nil
+	}
+	// TeX
+	if out, err := runTool(dir, 60*time.Second, cli, "audit2tex", target+".audit.json", "report.tex"); err != nil {
+		if err.Error() == "timeout" {
+			return Inconclusive("native converter timed out (machine overloaded)"), nil
+		}
+		return Viol("converter-failed", "", "scipipe audit2tex %s.audit.json failed: %v: %s", target, err, clip([]byte(out))), nil
+	}
+	tb, _ := os.ReadFile(filepath.Join(dir, "report.tex"))
+	ids = nil
+	for _, m := range reTeXID.FindAllStringSubmatch(string(tb), -1) {
+		ids = append(ids, m[1])
+	}
+	if v := checkListing("tex", ids, string(tb)); v.Status != "ok" {
+		return v, nil
+	}
+	// Bash: listing by process name (ids are not rendered), then execute
+	if out, err := runTool(dir, 60*time.Second, cli, "audit2bash", target+".audit.json", "report.sh"); err != nil {
+		if err.Error() == "timeout" {
+			return Inconclusive("native converter timed out (machine overloaded)"), nil
+		}
+		return Viol("converter-failed", "", "scipipe audit2bash %s.audit.json failed: %v: %s", target, err, clip([]byte(out))), nil
+	}
+	sb, _ := os.ReadFile(filepath.Join(dir, "report.sh"))
+	var gotProcs, wantProcs []string
+	for _, m := range reBashProc.FindAllStringSubmatch(string(sb), -1) {
+		gotProcs = append(gotProcs, m[1])
+	}
+	for _, r := range recs {
+		wantProcs = append(wantProcs, r.Proc)
+	}
+	if m, x := multisetDiff(gotProcs, wantProcs); len(m)+len(x) > 0 {
+		sig := ""
+		if len(eq) < len(recs) {
+			sig = "equal-start-times"
+		}
+		return Viol("report-listing", sig, "audit2bash of %s: script lists processes %v, the lineage has %v", target, gotProcs, wantProcs), nil
+	}
+	return OK(), sb
+}
+
+// directAuditCase: an audit tree generated directly (the property's "or
+// generated directly"): depth, fan-in, ancestors shared through several
+// paths, source records (no process, zero times), start times that are all
+// equal / all zero / tied in groups / distinct but not in tree order. Only the
+// listings are checked (there are no files a script could re-create).
+func directAuditCase(c *Case, cli string) Verdict {
+	t := c.Tape
+	n := 1 + t.Choose(simrt.StGen, 12, 0)
+	mode := t.Choose(simrt.StGen, 5, 0) // 0 increasing, 1 all equal, 2 all zero, 3 ties, 4 decreasing towards the root
+	base := time.Date(2026, 3, 1, 12, 0, 0, 0, time.UTC)
+	recs := make([]*AuditRec, n)
+	for i := 0; i < n; i++ {
+		r := &AuditRec{ID: fmt.Sprintf("%020s", fmt.Sprintf("rec%dx%d", i, n)), Params: map[string]string{}, Tags: map[string]string{},
+			OutFiles: map[string]string{}, Upstream: map[string]*AuditRec{}, ExecTimeNS: -1}
+		r.ID = strings.ReplaceAll(r.ID, " ", "q")
+		nup := 0
+		if i > 0 {
+			nup = t.Choose(simrt.StGen, min(4, i+1), 0)
+		}
+		if nup == 0 && t.Choose(simrt.StGen, 2, 0) == 0 {
+			// a source file: no producing task, zero times
+		} else {
+			r.ProcessName = fmt.Sprintf("proc%d", t.Choose(simrt.StGen, n, 0))
+			r.Command = fmt.Sprintf("op %s -i ../f%d.txt -o f%d.txt", r.ProcessName, i, i)
+			var st time.Time
+			switch mode {
+			case 0:
+				st = base.Add(time.Duration(i) * time.Second)
+			case 1:
+				st = base
+			case 2:
+			case 3:
+				st = base.Add(time.Duration(t.Choose(simrt.StGen, 3, 0)) * time.Millisecond)
+			case 4:
+				st = base.Add(time.Duration(n-i) * time.Second)
+			}
+			r.StartTime = st
+			if !st.IsZero() {
+				r.FinishTime = st.Add(5 * time.Millisecond)
+				r.ExecTimeNS = 5e6
+			}
+			if t.Choose(simrt.StGen, 3, 0) == 1 {
+				r.Params[fmt.Sprintf("par%d", i)] = fmt.Sprintf("val%d", i)
+			}
+			if t.Choose(simrt.StGen, 3, 0) == 1 {
+				r.Tags[fmt.Sprintf("tag%d", i)] = fmt.Sprintf("tv%d", i)
+			}
+		}
+		r.OutFiles["out"] = fmt.Sprintf("f%d.txt", i)
+		for k := 0; k < nup; k++ {
+			j := t.Choose(simrt.StGen, i, 0)
+			r.Upstream[fmt.Sprintf("f%d.txt", j)] = recs[j] // (the same record may be reached through several paths)
+		}
+		recs[i] = r
+	}
+	root := recs[n-1]
+	if root.ProcessName == "" {
+		root.ProcessName, root.Command = "rootproc", "op rootproc -o f.txt"
+	}
+	js, err := json.MarshalIndent(root, "", "    ")
+	if err != nil {
+		return Inconclusive("marshal: %v", err)
+	}
+	for _, b := range js {
+		c.Hash = (c.Hash ^ uint64(b)) * 1099511628211
+	}
+	flat := map[string]*flatRec{}
+	clash := ""
+	flattenAudit(root, flat, &clash)
+	if clash != "" {
+		panic("harness: generated audit tree has clashing ids: " + clash)
+	}
+	if len(flat) >= 3 {
+		c.Tasks = 2
+	}
+	c.Fault("generated-audit-tree")
+	c.Sample = fmt.Sprintf("directly generated audit tree: %d records reachable, start-time mode %d", len(flat), mode)
+	dir, err := os.MkdirTemp("", "verif-c20d.")
+	if err != nil {
+		return Inconclusive("mktemp: %v", err)
+	}
+	defer os.RemoveAll(dir)
+	if err := os.WriteFile(filepath.Join(dir, "direct.out.audit.json"), js, 0666); err != nil {
+		return Inconclusive("write: %v", err)
+	}
+	v, _ := convertAndCheck(cli, dir, "direct.out", flat)
+	return v
 }
